@@ -79,7 +79,7 @@ type tCond struct {
 	Type   int  `json:"type"`
 	Status int  `json:"status"` // 0 False, 1 True, 2 Unknown
 	ObsGen int  `json:"obsgen"`
-	Bare   bool `json:"bare,omitempty"` // no reason/message: only used to probe the C19 candidate at template_reconciler.go:392-398
+	Bare   bool `json:"bare,omitempty"` // no reason/message: "malformed condition" (template_reconciler.go:392-398), c_ok = false in the model
 }
 
 type tObj struct {
@@ -155,7 +155,7 @@ type tStepObs struct {
 	Kind    string `json:"kind"` // pass | enq | none
 	Evs     []tEv  `json:"evs,omitempty"`
 	Requeue int    `json:"requeue"`
-	Err     int    `json:"err"` // 0 none, 1 yaml, 2 creation, 3 update, 9 other
+	Err     int    `json:"err"` // 0 none, 1 yaml, 2 creation, 3 update, 4 malformed condition, 9 other
 	ErrMsg  string `json:"errmsg,omitempty"`
 	Enq     bool   `json:"enq"`
 	Snap    tSnap  `json:"snap"`
@@ -365,7 +365,9 @@ func tAbsObj(m map[string]any) tObj {
 		t, _ := cm["type"].(string)
 		s, _ := cm["status"].(string)
 		g, _, _ := unstructured.NestedInt64(cm, "observedGeneration")
-		o.Conds = append(o.Conds, tCond{Type: tNum(t), Status: tStatusNum(s), ObsGen: int(g)})
+		_, reasonOk := cm["reason"].(string)
+		_, messageOk := cm["message"].(string)
+		o.Conds = append(o.Conds, tCond{Type: tNum(t), Status: tStatusNum(s), ObsGen: int(g), Bare: !reasonOk || !messageOk})
 	}
 	return o
 }
@@ -390,8 +392,8 @@ func tConcreteSources(srcs []tSource) []any {
 		items := []any{}
 		for _, it := range s.Items {
 			dest := ".k" + strconv.Itoa(it[1])
-			if it[1] < 0 {
-				dest = "" // outside the model's language: only used to probe the C19 candidate at template_reconciler.go:283
+			if it[1] == 0 {
+				dest = "" // destination 0 of the model: empty destination (JSONPathFormatError, template_reconciler.go:283)
 			}
 			items = append(items, map[string]any{"key": tItemKey(it[0], it[0]+it[1]), "destination": dest})
 		}
@@ -973,6 +975,8 @@ func tErrClass(err error) int {
 		return 2
 	case strings.Contains(err.Error(), "updating templated object"):
 		return 3
+	case strings.Contains(err.Error(), "updating status conditions from owned object"):
+		return 4
 	default:
 		return 9
 	}
